@@ -384,3 +384,93 @@ fn st_add_header_repeated_md() {
     core::mem::forget(out);
     core::mem::forget(st);
 }
+
+// ---- G5 / C14: errors found in a source chain are classified: TimeoutExpired => CANCELLED, ConnectError => UNAVAILABLE -----------
+fn fmt_write_stub(_out: &mut dyn fmt::Write, _args: fmt::Arguments<'_>) -> fmt::Result {
+    Ok(()) // message texts are outside the claim (DESIGN §3.4)
+}
+
+#[derive(Debug)]
+struct Leaf;
+impl fmt::Display for Leaf {
+    fn fmt(&self, _f: &mut fmt::Formatter<'_>) -> fmt::Result {
+        Ok(())
+    }
+}
+impl Error for Leaf {}
+
+#[derive(Debug)]
+struct Wrap(u8, TimeoutExpired, Leaf);
+impl fmt::Display for Wrap {
+    fn fmt(&self, _f: &mut fmt::Formatter<'_>) -> fmt::Result {
+        Ok(())
+    }
+}
+impl Error for Wrap {
+    fn source(&self) -> Option<&(dyn Error + 'static)> {
+        if self.0 == 0 {
+            Some(&self.1) // a timeout one level down the chain
+        } else if self.0 == 1 {
+            Some(&self.2) // an unrelated cause
+        } else {
+            None
+        }
+    }
+}
+
+fn expect_cancelled(got: &Option<Status>) {
+    match got {
+        Some(s) => assert!(s.code() == Code::Cancelled, "C09: an expired timeout must surface as CANCELLED"),
+        None => assert!(false, "C09: an expired timeout was not recognised in the error chain"),
+    }
+}
+#[kani::proof]
+#[kani::unwind(5)]
+#[kani::stub(alloc::fmt::format, fmt_stub)]
+#[kani::stub(core::fmt::write, fmt_write_stub)]
+fn st_timeout_direct() {
+    let got = find_status_in_source_chain(&TimeoutExpired(()));
+    expect_cancelled(&got);
+    kani::cover!(true, "direct");
+    core::mem::forget(got);
+}
+#[kani::proof]
+#[kani::unwind(5)]
+#[kani::stub(alloc::fmt::format, fmt_stub)]
+#[kani::stub(core::fmt::write, fmt_write_stub)]
+fn st_timeout_nested() {
+    let e = Wrap(0, TimeoutExpired(()), Leaf);
+    let got = find_status_in_source_chain(&e);
+    expect_cancelled(&got);
+    kani::cover!(true, "nested");
+    core::mem::forget(got);
+}
+#[kani::proof]
+#[kani::unwind(5)]
+#[kani::stub(alloc::fmt::format, fmt_stub)]
+#[kani::stub(core::fmt::write, fmt_write_stub)]
+fn st_chain_unrelated() {
+    let e = Wrap(1, TimeoutExpired(()), Leaf);
+    let got = find_status_in_source_chain(&e);
+    assert!(got.is_none(), "C04: a status was invented for an unrelated error");
+    kani::cover!(true, "unrelated");
+    core::mem::forget(got);
+}
+
+#[kani::proof]
+#[kani::unwind(5)]
+#[kani::stub(alloc::fmt::format, fmt_stub)]
+#[kani::stub(core::fmt::write, fmt_write_stub)]
+fn st_connect_error_unavailable() {
+    let e = ConnectError(Box::new(Leaf));
+    let got = find_status_in_source_chain(&e);
+    match &got {
+        Some(s) => {
+            kani::cover!(true, "connect error");
+            assert!(s.code() == Code::Unavailable, "C14: a failed connection attempt must surface as UNAVAILABLE");
+        }
+        None => assert!(false, "C14: connect error not recognised"),
+    }
+    core::mem::forget(got);
+    core::mem::forget(e);
+}
